@@ -43,6 +43,10 @@ REPLAY = {'needs': ['W_m'], 'body': '''
 '''}
 
 
+# quick tier: the special move classes and pawn moves (2-8 min each); captures / quiet moves of the other five piece kinds take 15-25 min each: thorough tier
+QUICK15 = ('castling', 'enpassant', 'promotion', 'quiet_pawn')
+
+
 def jobs(tier, seed):
     out = []
     for fn, c, nm in ((CAP, C_CAP, 'move_is_capture'), (QUI, C_QUI, 'move_is_quiet')):
@@ -60,6 +64,6 @@ def jobs(tier, seed):
                       '  %s(&P, m);' % (ci, kd, CHK) + CANARY + '}\n')
             out.append(Job('move_gives_check/' + cname + ('_' + KINDS[kd] if kd else ''), TUS15, [CHK], h, 'h_p', contracts=dict(SL, **{CHK: C_CHK}), nobody=list(SL),
                            enforce=CHK, replace=list(SL), spec=SPEC + ['geom.h'], post_spec=POST, pre_text=GHOST + MOVE_CLASS + GIVES,
-                           timeout=2400, replay=REPLAY,
+                           timeout=3600, replay=REPLAY, tier=('quick' if (cname + ('_' + KINDS[kd] if kd else '')) in QUICK15 else 'thorough'),
                            note='move_gives_check == enemy king attacked in spec_after (direct, discovered, e.p., castling, promotion); move class: ' + cname + (', moving piece: ' + KINDS[kd] if kd else '')))
     return out
